@@ -1211,7 +1211,7 @@ def c16(tier):
                                                   for k, o in enumerate(core.read_ndjson(hi_out))]})
         # sequential thread "0": every shape on every input, after stack poisoning
         seq_events = []
-        for shape in range(9):
+        for shape in range(10):
             si = os.path.join(wd, "in-shape%d.ndjson" % shape)
             core.write_ndjson(si, [dict({k: v for k, v in r.items() if k != "tag"}, shape=shape) for r in inputs])
             so = os.path.join(wd, "out-shape%d-%s.ndjson" % (shape, cfg.replace("+", "_")))
@@ -1279,13 +1279,13 @@ def c16(tier):
     cov = {
         "states": mc.distinct + tstates, "transitions": mc.generated + ttrans,
         "traces_validated_against_impl": len(cfgs) * (2 * nthreads + 3), "evaluations": nevents, "histories": len(hist_ids), "oversubscribed_calls": over_calls,
-        "distinct_nontrivial": len(inputs) * 9,
+        "distinct_nontrivial": len(inputs) * 10,
         "rule": "MC_Calls: 3 threads x 2 inputs x every initial stack content x every interleaving, up to 2 calls per thread; the four "
                 "failure designs (shared scratch buffer, length set before the cells are written, per-thread and global one-entry "
                 "memo keyed by a prefix of the input) must each violate an invariant. "
-                "CF: every input x 9 iterator shapes (slice, chain, filter, skip/step_by, VecDeque ring, hand-written iterator with "
-                "size_hint (0,None), rev.rev, and two NON-FUSED ones that would yield more bytes if polled after None: hand-written and map_while"
-                ") after stack-poisoning calls, plus 8 concurrent threads each walking all inputs in its own "
+                "CF: every input x 10 iterator shapes (slice, chain, filter, skip/step_by, VecDeque ring, hand-written iterator with "
+                "size_hint (0,None), rev.rev, two NON-FUSED ones that would yield more bytes if polled after None: hand-written and map_while, "
+                "and slices starting at odd addresses) after stack-poisoning calls, plus 8 concurrent threads each walking all inputs in its own "
                 "order with rotating shapes; histories of RELATED inputs back to back on one thread (19-digit prefix / just below / "
                 "exact tie / just above a midpoint, exponent one off, other float format); the CF_Calls trace specification enables "
                 "Return only for baseline[input], and the baseline is what a FRESH PROCESS returns for that input alone",
